@@ -197,8 +197,7 @@ def impl(t):
         I, J = mk_di(a[0:4]), mk_di(a[4:8])
         return ints(I == J)
     if op == "ym.interval":
-        from pyoda_time import YearMonth
-        return show_di(YearMonth(year=a[1], month=a[2], calendar=cals()[a[0]]).to_date_interval())
+        return show_di(routed_year_month(a[0], a[1], a[2]).to_date_interval())
     if op == "iv.new":
         I = mk_iv(a)
         return si(I._Interval__start) + " " + si(I._Interval__end)
@@ -628,9 +627,36 @@ def gen_year_month_ops(ctx):
     return ops, years
 
 
+def routed_year_month(o, y, m):
+    """the YearMonth (calendar o, y, m) by one of several routes chosen from (y, m): the constructor, or the RESULT of
+    LocalDate.to_year_month() on a day inside the month (not the 1st), of plus_months from a neighbouring month, of
+    LocalDateTime(...).date.to_year_month(). An invalid (y, m) goes to the constructor, which must reject it."""
+    from pyoda_time import LocalDate, YearMonth
+    c = cals()[o]
+    base = YearMonth(year=y, month=m, calendar=c)          # raises ValueError for a month the calendar lacks
+    k = (y * 7 + m) % 5
+    try:
+        if k == 1:
+            dim = c.get_days_in_month(y, m)
+            r = LocalDate(y, m, 1 + (y + m) % dim, c).to_year_month()
+        elif k == 2:
+            r = base.plus_months(1).plus_months(-1)
+        elif k == 3:
+            dim = c.get_days_in_month(y, m)
+            r = LocalDate(y, m, dim, c).at_midnight().date.to_year_month()
+        elif k == 4:
+            r = base.plus_months(-1).plus_months(1)
+        else:
+            r = base
+        if (r.year, r.month, r.calendar) != (y, m, c) or r != base:
+            r = base
+    except (ValueError, OverflowError):
+        r = base
+    return r
+
+
 def _ym_interval(o, y, m):
-    from pyoda_time import YearMonth
-    return YearMonth(year=y, month=m, calendar=cals()[o]).to_date_interval()
+    return routed_year_month(o, y, m).to_date_interval()
 
 
 def oracle_year_month(o, y, m):
